@@ -175,6 +175,14 @@ def ratSign (q : Rat) : Rat := if q > 0 then 1 else if q < 0 then -1 else 0
 def ratPow (q : Rat) (n : Int) : Option Rat :=
   if n ≥ 0 then some (q ^ n.toNat) else if q = 0 then none else some (1 / q ^ (-n).toNat)
 
+/-- exact square root of a rational that is a perfect square (undefined otherwise: the value is irrational
+    or the argument is negative) -/
+def ratSqrt? (q : Rat) : Option Rat :=
+  if q < 0 then none else
+  let n := q.num.toNat; let d := q.den
+  let sn := Nat.sqrt n; let sd := Nat.sqrt d
+  if sn * sn == n && sd * sd == d then some ((sn : Rat) / (sd : Rat)) else none
+
 /-- exact rational points; division by zero, thick constants and non-rational operators are undefined -/
 def Alg.rat : Alg Rat where
   ofItv := ratOfItv
@@ -192,6 +200,7 @@ def Alg.rat : Alg Rat where
     | "sign" => some fun a => some (ratSign a)
     | "floor" => some fun a => some (a.floor : Rat)
     | "ceil" => some fun a => some (a.ceil : Rat)
+    | "sqrt" => some ratSqrt?
     | _ => none
   pow := ratPow
   chi a b c := some (if a ≤ 0 then b else c)
